@@ -688,7 +688,7 @@ def _is_submit(table, pid, k):
 
 # -------------------------------------------------------------- single run
 def run_one(scenario, run_seed, schedule=None, max_steps=4000,
-            with_model=False):
+            with_model=False, cont=False):
     """Runs one scenario on the real code; returns (sim, verdicts, stats)."""
     from harness import runtime_sim as rs
     random.seed(run_seed)
@@ -706,7 +706,7 @@ def run_one(scenario, run_seed, schedule=None, max_steps=4000,
         if recorder:
             recorder.after(s, rec)
     quiescent = sim.run(pol, max_steps=max_steps, schedule=schedule,
-                        after=after,
+                        after=after, cont=cont,
                         before=recorder.before if recorder else None)
     stats = evaluate(sim, quiescent, st, V)
     sim.recorder = recorder
@@ -809,8 +809,8 @@ def n_runs(tier):
 
 
 def pool_size():
-    """16 workers on an idle machine, fewer when it is already oversubscribed."""
-    n = min(16, os.cpu_count() or 1)
+    """at most 8 worker processes (shared machine), fewer when it is already oversubscribed."""
+    n = min(8, os.cpu_count() or 1)
     try:
         if os.getloadavg()[0] > n:
             n = max(4, n // 2)
@@ -917,8 +917,8 @@ def _w(*names):
 
 WITNESSES = {
     'leak': {
-        'prop': 'C12', 'expect': 'leak:worker._tasks:arrived-after-cancel',
-        'theorem': 'C12_leak_witness',
+        'prop': 'C12', 'expect': None,      # fixed by dfc4d06: regression
+        'theorem': 'regression example of Props/C12 (was C12_leak_witness)',
         'scenario': {'topo': {'kind': 'detached', 'workers': 1},
                      'table': ((), (('s', 0), ('a', 0))),
                      'clients': [[('submit', 1), ('cancel', 0)]]},
@@ -928,8 +928,8 @@ WITNESSES = {
                      ('d', 'S', 'W0'), ('d', 'S', 'W0'), ('w', 'W0'),
                      ('d', 'W0', 'S'), ('d', 'S', 'C0')]},
     'orphan': {
-        'prop': 'C12', 'expect': 'orphan:worker._mailboxes:owner-completed',
-        'theorem': 'C12_orphan_witness',
+        'prop': 'C12', 'expect': None,      # fixed by 6ca9fa1: regression
+        'theorem': 'regression example of Props/C12 (was C12_orphan_witness)',
         'scenario': {'topo': {'kind': 'detached', 'workers': 1},
                      'table': ((), (('s', 0), ('s', 0))),
                      'clients': [[('submit', 1)]]},
@@ -962,9 +962,9 @@ def replay_witnesses(ck: Check, prop: str):
         if w['prop'] != prop:
             continue
         sim, V, stats, st = run_one(w['scenario'], 7, schedule=w['schedule'],
-                                    with_model=True)
+                                    with_model=True, cont=w['expect'] is None)
         rec = sim.recorder
-        mine = rec.lines[rec.nhdr:]
+        mine = rec.lines[rec.nhdr:rec.nhdr + len(w['schedule'])]
         theirs = rm.run_driver([f'witness {name}'])[0].split(' ;; ')
         norm = lambda s: ' '.join(s.split())
         sigs = {sig for (p, sig, what, d) in V.items if p == prop}
@@ -974,8 +974,11 @@ def replay_witnesses(ck: Check, prop: str):
         done[name] = {'theorem': w['theorem'], 'transitions': len(mine),
                       'same_run_as_lean_definition': ok_sync,
                       'model_agrees': d['mismatch'] is None,
-                      'finding_reproduced': w['expect'] in sigs,
                       'quiescent': stats['quiescent']}
+        if w['expect'] is None:
+            done[name]['clean'] = not sigs
+        else:
+            done[name]['finding_reproduced'] = w['expect'] in sigs
         replay = {'scenario': w['scenario'], 'run_seed': 7,
                   'schedule': [list(x) for x in w['schedule']]}
         if not ok_sync or d['mismatch'] is not None:
@@ -986,7 +989,7 @@ def replay_witnesses(ck: Check, prop: str):
                 f'{d["mismatch"] is None})',
                 {'broken': w['theorem'], **replay,
                  'mismatch': d['mismatch']}, found_input=False)
-        elif w['expect'] not in sigs:
+        elif w['expect'] is not None and w['expect'] not in sigs:
             ck.violation(
                 f'witness-not-reproduced:{name}',
                 f'{w["theorem"]} describes a defect the real code no longer '
